@@ -14,8 +14,8 @@
  * outputs:
  *   BOOT n | MSG dup qos retain toff tlen poff plen valid : <topic||payload, clamped to the valid bytes>
  *   | SENT type : <hex for acknowledgement types 4..7> | QUEUED type pid size | DROPPED | ERR code | RECONNECT
- * After the first ERR the session is over: the clock is advanced by 6 s (real iterate timer -> reconnect) and
- * later events are ignored. */
+ * After the first ERR the session is over: the clock is moved 6 s ahead (a session older than
+ * RECONNECT_RETRY_TIME_MS), the next mqtt_sync() runs the real supla_esp_mqtt_reconnect, later events are ignored. */
 #include <string.h>
 #include <os_type.h>
 #include <osapi.h>
@@ -62,7 +62,9 @@ static void check_error(void) {
   if (halted || c->error == MQTT_OK) return;
   vout("ERR %d", (int)(c->error - MQTT_ERROR_UNKNOWN));
   halted = 1; armed = 1;
-  v_advance(6000000ULL);
+  /* the session is older than RECONNECT_RETRY_TIME_MS: the next mqtt_sync() reconnects at once */
+  v_now += 6000000ULL;
+  c16_sync();
 }
 static unsigned lfsr_step(unsigned x) { unsigned lsb = x & 1; x >>= 1; if (lsb) x ^= 0xB400u; return x; }
 static void position_lfsr(unsigned pid) {
@@ -71,7 +73,7 @@ static void position_lfsr(unsigned pid) {
 static void queued(void) {
   struct mqtt_client *c = c16_client();
   struct mqtt_queued_message *m = c->mq.queue_tail;
-  vout("QUEUED %d %u %u", (int)m->control_type, (unsigned)m->packet_id, (unsigned)m->size);
+  vout("QUEUED %d %u %u", (int)m->control_type, m->control_type == MQTT_CONTROL_PINGREQ ? 0u : (unsigned)m->packet_id, (unsigned)m->size);
 }
 
 static void do_start(void) {
